@@ -2104,6 +2104,17 @@ struct Value {
     }
 
   private:
+    // Follows pointer-to-value links: false when there is no defined value at the end.
+    static bool hasDefinedValue(const Value &value) noexcept {
+        const Value *val = &value;
+
+        while (val->Type() == ValueType::ValuePtr) {
+            val = val->value_;
+        }
+
+        return !(val->isUndefined());
+    }
+
     template <typename Stream_T>
     static void stringifyObject(const ObjectT &obj, Stream_T &stream, SizeT32 precision) {
         stream += JSONotation::SCurlyChar;
@@ -2112,7 +2123,8 @@ struct Value {
         const VItem *end    = (h_item + obj.Size());
 
         while (h_item != end) {
-            if ((h_item != nullptr) && !(h_item->Value.isUndefined())) {
+            // A pointer to an undefined value has nothing to print either: leave the member out.
+            if ((h_item != nullptr) && hasDefinedValue(h_item->Value)) {
                 stream += JSONotation::QuoteChar;
                 JSONUtils::Escape(h_item->Key.First(), h_item->Key.Length(), stream);
                 stream += JSONotation::QuoteChar;
@@ -2142,7 +2154,7 @@ struct Value {
         const Value *end  = arr.End();
 
         while (item != end) {
-            if (!(item->isUndefined())) {
+            if (hasDefinedValue(*item)) {
                 stringifyValue(*item, stream, precision);
                 stream += JSONotation::CommaChar;
             }
